@@ -107,6 +107,14 @@ pub fn run(args: &Args) {
             inputs.push(("shape".into(), format!("{} = 1\nSWAP {}, B\nCONST {} = 1\n", lv, lv, lv)));
             inputs.push(("shape".into(), format!("SUB S ({})\nEND SUB\nFUNCTION {}\nEND FUNCTION\n", lv, lv)));
         }
+        // a statement that starts like an assignment target or a call but is neither
+        for head in ["A(1).B", "A(1).B.C", "A.B(1).C", "A$(1)", "A%.B", "F(1)(2)", "A().B", "P.X(1)", "A(1).B$", "A(1, 2).B.C(3)", "A.B.C", "A.B$"] {
+            for tail in ["", " 5", " 5, 6", " = 1", " (1)", " : PRINT 1"] {
+                inputs.push(("shape".into(), format!("{}{}\n", head, tail)));
+                inputs.push(("shape".into(), format!("DIM A(3)\nSUB S\n{}{}\nEND SUB\n", head, tail)));
+                inputs.push(("shape".into(), format!("TYPE T\nB AS INTEGER\nEND TYPE\nDIM A(3) AS T\nIF 1 THEN {}{}\n", head, tail)));
+            }
+        }
         let letters = ["A", "Z", "a", "z", "M", "m", "B"];
         for kw in ["DEFINT", "DEFLNG", "DEFSNG", "DEFDBL", "DEFSTR"] {
             for x in letters {
